@@ -1,7 +1,7 @@
 // C07 harness: executes the real kernel/solver code on one case per line (see FeatModel/Driver/C07.lean)
 //   ctl   : the stopping-criterion state machine of IterativeSolver (iterative.hpp) at double, fed with
 //           arbitrary (dyadic / non-finite) defect sequences through a test subclass
-//   solve : a session of apply()/correct() calls on ONE real solver object (PCG, Richardson, PCR, BiCGStab) at the
+//   solve : a session of apply()/correct() calls on ONE real solver object (PCG, Richardson, PCR, PMR, BiCGStab) at the
 //           exact rational scalar Q, with NoneFilter / UnitFilter and without / with a (mock, arbitrary linear,
 //           possibly failing) preconditioner
 #include <exact_q.hpp>
@@ -14,6 +14,7 @@
 #include <kernel/solver/pcg.hpp>
 #include <kernel/solver/richardson.hpp>
 #include <kernel/solver/pcr.hpp>
+#include <kernel/solver/pmr.hpp>
 #include <kernel/solver/bicgstab.hpp>
 #include <cmath>
 #include <memory>
@@ -241,6 +242,11 @@ static void solve_with_filter(const std::string& kind, const QMat& a, const Filt
   else if(kind == "pcr")
   {
     Logged<Solver::PCR<QMat, Filter_>> s(a, filter, pre);
+    run_session(s, pre.get(), g, n, c, o);
+  }
+  else if(kind == "pmr")
+  {
+    Logged<Solver::PMR<QMat, Filter_>> s(a, filter, pre);
     run_session(s, pre.get(), g, n, c, o);
   }
   else if(kind == "bicgstab")
